@@ -53,7 +53,7 @@ func init() {
 const xfKeyF12 = "writeto-concurrent/offset-after-eof"
 
 type xfOp struct {
-	K    string `json:"k"` // r ra w wa rf rfc wt sk st tr cl nm
+	K    string `json:"k"`             // r ra w wa rf rfc wt sk st tr cl nm
 	Act  string `json:"act,omitempty"` // nm: rename remove rotate replace dir symlink dangling (N: size of the file the name shows afterwards)
 	N    int    `json:"n,omitempty"`
 	Off  int64  `json:"off,omitempty"`
